@@ -193,8 +193,8 @@ fn direct_table(ns: Vec<Node>) -> RoutingTable {
 }
 
 //@ ob: C12.O3
-//@ tier: thorough
-//@ cap: 2400
+//@ tier: off
+//@ cap: 3000
 //@ standins: vcoll
 //@ desc: RoutingTable::add into a built one-bucket table of 2 entries satisfying Inv: afterwards no entry has the table's id, ids are pairwise distinct, the per-IP rule holds pairwise, size() = number of entries, is_empty() agrees, nodes() yields exactly the entries, every entry sits in the bucket of its distance; a fresh acceptable node is added
 //@ bounds: table id all-zero, entries in distance class 160 with ids [0x80|b0,b1,b2,..,r] and IPs from {8.8.8.8, 1.2.3.4} (secure and insecure mixes); 2 entries + 1 incoming (incoming may be the table's own id class or any distance class 153..160); unwind 21; RoutingTableIterator::next 163
@@ -349,8 +349,8 @@ fn c12_o3g_table_add_glue() {
 }
 
 //@ ob: C14.O1
-//@ tier: thorough
-//@ cap: 1500
+//@ tier: off
+//@ cap: 3000
 //@ standins: vcoll
 //@ also: C12
 //@ desc: refresh on contact: the table holds X (added at t0); at t1 the call handle_response makes for an expected reply -- routing_table.add(Node::new(X.id, X.addr)) -- leaves exactly one entry for X whose last_seen is t1 (so a peer that keeps answering is never stale); with a second unrelated entry present too
@@ -403,8 +403,8 @@ fn c14_o1_refresh_on_contact() {
 }
 
 //@ ob: C12.O4
-//@ tier: thorough
-//@ cap: 2400
+//@ tier: off
+//@ cap: 3000
 //@ standins: vcoll
 //@ also: C20
 //@ desc: remove(id) deletes exactly the entry with that id (nothing else, no effect for unknown ids); reset_id(new) re-buckets every entry: afterwards each entry sits in the bucket of its distance to the new id, ids are distinct, nothing with the new id remains, and the table's lookup statistics (sample counters and sums, which mirror the cached lookups) are untouched
@@ -479,8 +479,8 @@ fn c12_o4_remove_and_rekey() {
 }
 
 //@ ob: C11.O3
-//@ tier: thorough
-//@ cap: 2700
+//@ tier: off
+//@ cap: 3000
 //@ standins: vcoll
 //@ desc: RoutingTable::closest(t) on a built 3-entry table: result has no duplicates, every element is a table entry, length = min(20, size) = 3, and it is ordered secure-first then XOR distance to t (the brute-force order)
 //@ bounds: 3 entries in one bucket (ids [0x80|b0,b1,b2,..,r], IPs 8.8.8.8 / 1.2.3.4 / 10.0.0.x), symbolic target bytes 0,1,19; unwind 21
@@ -657,8 +657,8 @@ fn c12_o5_table_full_bucket() {
 }
 
 //@ ob: C12.O6
-//@ tier: thorough
-//@ cap: 1800
+//@ tier: off
+//@ cap: 3000
 //@ standins: vcoll
 //@ also: C14 C20
 //@ desc: iteration agrees with the table's contents whatever buckets exist: on a table whose bucket map holds an emptied bucket (what remove() leaves behind), a one-node bucket and a two-node bucket, nodes() yields exactly the three entries (nearer buckets first, bucket order inside), size() = 3, is_empty() is false, to_owned_nodes() has the same three -- an emptied bucket never hides the buckets after it
